@@ -14,7 +14,7 @@
 EXTENDS Naturals, Sequences, TLC, Json
 
 CONSTANTS
-    LeafKinds,   \* subset of {"H1".."H6", "P", "P2" (two lines), "Code", "CodeL" (with language), "CodeF" (fence in the body), "Rule", "Tbl", "Html", "Ref"}
+    LeafKinds,   \* subset of {"H1".."H6", "P", "P2" (two lines), "Code", "CodeL" (with language), "CodeF" (fence in the body), "Rule", "Tbl", "Html", "Ref", "EQ" (an empty quote), "EI" (an empty item)}
     ContKinds,   \* subset of {"Q", "BL", "OL"}
     MaxNodes,
     MaxDepth
@@ -41,6 +41,8 @@ Leaf(kind, i) ==
       \* a code block whose body contains a fence line
       [] kind = "CodeF" -> B("Code", 0, <<W("code" \o Id(i) \o "\n```\nmore" \o Id(i))>>, <<>>, <<>>, <<>>, "")
       [] kind = "Rule" -> B("Rule", 0, <<>>, <<>>, <<>>, <<>>, "")
+      \* an empty block quote (a line holding only ">")
+      [] kind = "EQ" -> B("Q", 0, <<>>, <<>>, <<>>, <<>>, "")
       [] kind = "Html" -> B("Html", 0, <<>>, <<>>, <<>>, <<>>, "<div>html" \o Id(i) \o "</div>\n")
       [] kind = "Ref" -> B("P", 0, <<T("Link", "note" \o Id(i), <<W("ref" \o Id(i))>>, "inline")>>, <<>>, <<>>, <<>>, "")
       [] kind = "Tbl" -> B("Tbl", 0, <<>>, <<>>, <<>>,
